@@ -17,7 +17,7 @@ def natList (j : Json) : Except String (List Nat) := do
   let a ← j.getArr?
   a.toList.mapM (·.getNat?)
 
-def opOfJson (j : Json) : Except String Op := do
+def opOfJson (j : Json) : Except String (Op Int) := do
   let a ← j.getArr?
   match a.toList with
   | [n, q, th] =>
@@ -43,7 +43,7 @@ def errJson : Err → Json
   | .value => jErr "ValueError"
   | .assertion => jErr "AssertionError"
 
-def callJson (c : GateCall) : Json :=
+def callJson (c : GateCall Int) : Json :=
   Json.mkObj [("m", Json.str c.method), ("ph", Json.arr (c.phases.toArray.map fun p => Json.num (JsonNumber.fromInt p))),
     ("pars", Json.arr (c.pars.toArray.map parOfJson))]
 
@@ -55,23 +55,32 @@ def entryJson : Entry → Json
 def intsJson (l : List Int) : Json := Json.arr (l.toArray.map fun p => Json.num (JsonNumber.fromInt p))
 def natsJson (l : List Nat) : Json := Json.arr (l.toArray.map fun p => Json.num (JsonNumber.fromNat p))
 
-def gridJson (st : GridState) : Json :=
+def gridJson (st : GridState Int) : Json :=
   Json.mkObj [("kind", Json.str "grid"), ("j", st.j), ("s", st.s), ("phi", intsJson st.phi),
     ("grid", Json.arr (st.grid.toArray.map fun r => Json.arr (r.toArray.map entryJson))),
     ("calls", Json.arr (st.calls.reverse.toArray.map callJson))]
 
-def layerJson (st : LayerState) : Json :=
+def layerJson (st : LayerState Int) : Json :=
   Json.mkObj [("kind", Json.str "layered"), ("s", st.s), ("phi", intsJson st.phi),
     ("mp", Json.arr (st.mp.toArray.map entryJson)),
     ("mp_list", Json.arr (st.mpList.reverse.toArray.map fun r => Json.arr (r.toArray.map entryJson))),
     ("calls", Json.arr (st.calls.reverse.toArray.map callJson))]
 
-def binJson (st : BinState) : Json :=
+/-- tokens of the index-based class: the ordinal of the item's call among all calls (every call made one item) -/
+def binItemsJson (items : List (BinItem Int)) : Json :=
+  let rec go : List (BinItem Int) → Nat → List Json
+    | [], _ => []
+    | it :: rest, k =>
+      match it.gate with
+      | some _ => Json.arr #[Json.num (JsonNumber.fromNat k), Json.num (JsonNumber.fromNat it.i),
+          Json.num (JsonNumber.fromInt it.j)] :: go rest (k + 1)
+      | none => Json.arr #[Json.str "I", Json.num (JsonNumber.fromNat it.i), Json.num (JsonNumber.fromInt it.j)] :: go rest k
+  Json.arr (go items 0).toArray
+
+def binJson (st : BinState Int) : Json :=
   Json.mkObj [("kind", Json.str "binary"), ("phi", intsJson st.phi),
-    ("items", Json.arr (st.items.reverse.toArray.map fun (t, i, j) =>
-      Json.arr #[if j == -2 then Json.str "I" else Json.num (JsonNumber.fromNat t), Json.num (JsonNumber.fromNat i),
-        Json.num (JsonNumber.fromInt (if j == -2 then -1 else j))])),
-    ("calls", Json.arr (st.calls.reverse.toArray.map callJson))]
+    ("items", binItemsJson st.items.reverse),
+    ("calls", Json.arr (st.calls.toArray.map callJson))]
 
 def parOfString (s : String) : Except String Par :=
   -- tokens come back from the harness in the same spelling
@@ -93,7 +102,7 @@ def parsOfJson (j : Json) : Except String (List Par) := do
 
 /-- circuit-object method calls: ["Rz", i, theta] ["I", i] ["X", i, pars] ["SX", i, pars] ["CNOT", i, k, pars]
 ["ECR", i, k, pars] ["relaxation", i, pars] ["bitflip", i, pars] -/
-def circCallOfJson (j : Json) : Except String CircCall := do
+def circCallOfJson (j : Json) : Except String (CircCall Int) := do
   let a ← j.getArr?
   match a.toList with
   | [n, i] => do
@@ -116,7 +125,7 @@ def circCallOfJson (j : Json) : Except String CircCall := do
     | _ => throw s!"bad call {name}"
   | _ => throw "bad call shape"
 
-def circCallJson : CircCall → Json
+def circCallJson : CircCall Int → Json
   | .Rz i th => Json.arr #[Json.str "Rz", i, Json.num (JsonNumber.fromInt th)]
   | .I i => Json.arr #[Json.str "I", i]
   | .X i p => Json.arr #[Json.str "X", i, Json.arr (p.toArray.map parOfJson)]
@@ -140,17 +149,17 @@ def handleRun (j : Json) : Except String Json := do
     match callsBinary n lay.used data with
     | .error e => pure (errJson e)
     | .ok cs =>
-      match foldE BinState.step (BinState.init n) cs with
+      match foldE (BinState.step intPhase) (BinState.init intPhase n) cs with
       | .error e => pure (errJson e)
       | .ok st => pure (Json.mkObj (head ++ [("circ_calls", Json.arr (cs.toArray.map circCallJson)), ("state", binJson st)]))
   else
     let cs := callsLayered n data
     if cls == "grid" then
-      match foldE GridState.step (GridState.init n depth) cs with
+      match foldE (GridState.step intPhase) (GridState.init intPhase n depth) cs with
       | .error e => pure (errJson e)
       | .ok st => pure (Json.mkObj (head ++ [("circ_calls", Json.arr (cs.toArray.map circCallJson)), ("state", gridJson st)]))
     else
-      match foldE LayerState.step (LayerState.init n) cs with
+      match foldE (LayerState.step intPhase) (LayerState.init intPhase n) cs with
       | .error e => pure (errJson e)
       | .ok st => pure (Json.mkObj (head ++ [("circ_calls", Json.arr (cs.toArray.map circCallJson)), ("state", layerJson st)]))
 
@@ -162,41 +171,41 @@ def handleSteps (j : Json) : Except String Json := do
   let depth ← getNat j "depth"
   let script ← getArr j "script"
   if cls == "binary" then
-    let mut st := BinState.init n
+    let mut st := BinState.init intPhase n
     let mut out : Array Json := #[]
     for s in script do
       match s.getStr? with
-      | .ok "reset" => st := st.reset
+      | .ok "reset" => st := st.reset intPhase
       | .ok "snap" => out := out.push (binJson st)
       | _ =>
         let c ← circCallOfJson s
-        match st.step c with
+        match st.step intPhase c with
         | .error e => return Json.mkObj [("snaps", Json.arr out), ("raised", errJson e)]
         | .ok st' => st := st'
     pure (Json.mkObj [("snaps", Json.arr out)])
   else if cls == "grid" then
-    let mut st := GridState.init n depth
+    let mut st := GridState.init intPhase n depth
     let mut out : Array Json := #[]
     for s in script do
       match s.getStr? with
-      | .ok "reset" => st := st.reset
+      | .ok "reset" => st := st.reset intPhase
       | .ok "snap" => out := out.push (gridJson st)
       | _ =>
         let c ← circCallOfJson s
-        match st.step c with
+        match st.step intPhase c with
         | .error e => return Json.mkObj [("snaps", Json.arr out), ("raised", errJson e)]
         | .ok st' => st := st'
     pure (Json.mkObj [("snaps", Json.arr out)])
   else
-    let mut st := LayerState.init n
+    let mut st := LayerState.init intPhase n
     let mut out : Array Json := #[]
     for s in script do
       match s.getStr? with
-      | .ok "reset" => st := st.reset
+      | .ok "reset" => st := st.reset intPhase
       | .ok "snap" => out := out.push (layerJson st)
       | _ =>
         let c ← circCallOfJson s
-        match st.step c with
+        match st.step intPhase c with
         | .error e => return Json.mkObj [("snaps", Json.arr out), ("raised", errJson e)]
         | .ok st' => st := st'
     pure (Json.mkObj [("snaps", Json.arr out)])
